@@ -1003,10 +1003,13 @@ func ParsePortionSpecific(input string) (*big.Rat, InterpreterError) {
 		if len(fractionMatch) != 0 {
 			numerator := fractionMatch[1]
 			denominator := fractionMatch[2]
-			res, ok = new(big.Rat).SetString(numerator + "/" + denominator)
-			if !ok {
+			// both parts are read in base 10 (big.Rat.SetString would detect a base prefix)
+			num, okNum := new(big.Int).SetString(numerator, 10)
+			den, okDen := new(big.Int).SetString(denominator, 10)
+			if !okNum || !okDen || den.Sign() == 0 {
 				return nil, BadPortionParsingErr{Reason: "invalid fractional format", Source: input}
 			}
+			res = new(big.Rat).SetFrac(num, den)
 		}
 	}
 	if res == nil {
